@@ -91,3 +91,34 @@ PROPS["C09"] = Prop(
     nontrivial=lambda s, impl: " n=0 " not in s,
 )
 PARAMS["C09"] = {"rule": "append, prepend, pop_back, pop_front, split at every K <= N (owned, & and &mut), concat for every N + M <= 8, remove / swap_remove at every index 0..=N+1 and usize::MAX, for N in 0..=8 plus 16/17/33, element kinds of size 0 (drop-counted), 1, 8, 24 bytes and a drop-tracked one; compared with the Vec operation, pointer extents of the reference split, and per-element drop counts."}
+
+MEM_TRUST = "modelled, not verified: slice::from_raw_parts(_mut), reference transmutes and pointer casts produce a view at the computed address with the computed length; layouts from C01"
+
+PROPS["C02"] = Prop(
+    "C02", ["GA.Props.C02"],
+    [Engine("views", scen.views, sig=lambda l: l.split()[0])],
+    trusted=[KERNEL, TRANSLATOR, HARNESS, MEM_TRUST],
+    assumptions=["a view is described by (address offset, element count); aliasing rules beyond address equality (Stacked/Tree Borrows) are not modelled",
+                 "correspondence covers the length lattice incl. every tuple length 1..=12; theorems cover every N and every source length L"],
+    nontrivial=lambda s, impl: " n=0 " not in s,
+)
+PARAMS["C02"] = {"rule": "ten borrowed views x length lattice x 5 element kinds (address offset and length vs the array); six checked reinterpretations x source lengths {0, N-1, N, N+1, 2N+1}; AsRef/AsMut<[T;N]>, From<&[T;N]>, array and tuple round trips for every const length; write through each mutable view, read through each view (all ordered pairs)."}
+
+PROPS["C10"] = Prop(
+    "C10", ["GA.Props.C10"],
+    [Engine("chunks", scen.chunks, sig=lambda l: l.split()[0])],
+    trusted=[KERNEL, TRANSLATOR, HARNESS, MEM_TRUST],
+    assumptions=["slice_from_chunks on zero-sized elements with k*N >= 2^64 (the multiplication can wrap; no memory is involved) is outside the theorem's hypothesis",
+                 "const-evaluator agreement is covered by C18"],
+    nontrivial=lambda s, impl: " n=0 " not in s and " l=0 " not in s,
+)
+PARAMS["C10"] = {"rule": "chunks_from_slice(_mut) for every L in 0..=4N+3, N in {0,1,2,3,7,8,16,33}, element kinds of 0/1/4/24 bytes: pointer and length of both parts vs the source; slice_from_chunks(_mut), from_chunks(_mut), into_chunks(_mut) for several chunk counts."}
+
+PROPS["C11"] = Prop(
+    "C11", ["GA.Props.C11"],
+    [Engine("regroup", scen.regroup, sig=lambda l: l.split()[0])],
+    trusted=[KERNEL, TRANSLATOR, HARNESS, MEM_TRUST, "typenum's Prod/Quot"],
+    assumptions=["unflatten is claimed over evenly divisible lengths (its documented domain); other lengths hit the size check (owned) and are shown to stay within the source (by reference)"],
+    nontrivial=lambda s, impl: " n=0 " not in s and " m=0 " not in s,
+)
+PARAMS["C11"] = {"rule": "flatten / unflatten, owned, & and &mut, for every (N, M) in 0..=6 squared (N >= 1 for unflatten) plus (1,1024), (1024,1), (16,64); 5 element kinds incl. zero-sized and drop-tracked; element order, address and extent of the regrouped value/view."}
